@@ -455,6 +455,14 @@ UNITS['U35k'] = dict(
     assumptions=['Vec::with_capacity(n).capacity() == n (TopN::init and execute rely on it; std only promises >= n)', 'R6: scratchpad bindings become parameters of the same guard types (Ref<[T]>, RefMut<Vec<_>>); self.n / self.last_index in a two-field stand-in'],
     not_covered=['more than two batches (two-batch shapes run in the thorough tier)', 'TopN::finalize (final sort of the kept rows)', 'n > 3', 'the planner choice between top-n and full sort'])
 
+UNITS['U37k'] = dict(
+    kind='kani', crate='kani/U37', needs_lock=True, timeout_s=900, mem_gb=10,
+    title='BOUNDED (columns of 3 rows; ints and floats any value, strings empty): server::encode_column - a mixed result column reads back from its wire representation cell by cell',
+    harnesses=[dict(name='proofs::mixed_column_reads_back', bounded='3 rows, each NULL / any i64 / any f64 except the reserved NaN / a string, unwind 5', unwind=5, clause='wire column has one entry per row and row i reads back as the produced value (NULL, int exact, float bit-exact, string)', fn='server::encode_column'),
+               dict(name='proofs::vx_canary', expect_fail=True)],
+    assumptions=['R10: api::EncodingOpts reduced to (xor_float_compression, mantissa); xor compression off (the codec itself is U16k)', 'A-reserved: the NaN bit pattern xor_float::NULL is not a data value (property C01 states it as reserved)', 'string payloads are not compared (empty strings only)'],
+    not_covered=['columns longer than 3 rows', 'the xor-compressed float path', 'bincode / HTTP transport'])
+
 UNITS['U24k'] = dict(
     kind='kani', crate='kani/U24', timeout_s=600, mem_gb=12, jobs=2,
     title='BOUNDED (names <= 2 ASCII characters): storage.rs sanitize_table_name - cleaning steps after lower-casing (slice) and the verbatim-or-digest decision (expression slice)',
@@ -497,11 +505,11 @@ PROPS = {
                 level_note='the check catches a broken cursor primitive or classification, not a broken ordering of persist / advance / delete across threads; history composition is not covered',
                 technique='contract-based deductive verification (Kani complete harnesses) of extracted functions and statement slices',
                 assumptions=[], not_covered=['write-ahead-before-acknowledge (thread join)', 'wal_flush ordering', 'capnp transport of the catalogue']),
-    'C16': dict(level='proof', units=['U16k', 'U15k', 'U02', 'U17k'],
+    'C16': dict(level='proof', units=['U16k', 'U15k', 'U02', 'U17k', 'U37k'],
                 level_text='float codec: induction base/step discharged by complete Kani harnesses over the extracted loop bodies; integer layouts and client-side row API: bounded Kani harnesses (length <= 4) over all values',
                 level_note='A-bitbuffer, A-ind-scheme, A-capnp; bounded parts are reported under coverage.bounded and not counted as discharged obligations',
                 technique='contract-based deductive verification (Kani: complete induction step + bounded harnesses) of extracted slices and of the unmodified sub-crate',
-                assumptions=[], not_covered=['capnp transport', 'bitbuffer internals', 'server::encode_column dispatch']),
+                assumptions=[], not_covered=['capnp transport', 'bitbuffer internals', 'bincode / HTTP framing']),
     'C02': dict(level='proof', units=['U10', 'U09k', 'U09m', 'U13k', 'U20k', 'U28k', 'U29'],
                 level_text='Verus proofs of the merge kernels that combine per-partition results (sorted, provenance, left-biased, nothing skipped), complete Kani proofs of cross-partition aggregate combination and limit arithmetic; bounded Kani check (2-4 keys) of the plan that merges the grouping keys of two partial results',
                 level_note='per-partition planning, executor streaming, disk read scheduling and thread count are glue and not covered: the check catches a broken merge/combine primitive or a broken key-merge chain, not a broken executor',
